@@ -11,7 +11,7 @@ package ansi
 
 pred CSIParamsWF(seq CSI) =
      forall i in 0..len(seq.Parameters):
-        (len(seq.Parameters[i]) >= 1 && (forall j in 0..len(seq.Parameters[i]): seq.Parameters[i][j] >= 0))
+        (len(seq.Parameters[i]) >= 1 && (forall j in 0..len(seq.Parameters[i]): (0 <= seq.Parameters[i][j] && seq.Parameters[i][j] <= maxParam)))
 
 func (p *Parser) emit(seq Sequence)
   requires C02_csiwf: typeis(seq, "CSI") ==> CSIParamsWF(unbox(seq, "CSI"))
@@ -62,8 +62,8 @@ func (p *Parser) csiDispatch(r rune)
   ensures C02_noparams: old(len(p.params)) == 0 ==> len(unbox(logat("seq", old(loglen("seq"))), "CSI").Parameters) == 0
   loop 1 invariant basics: 0 <= i && ps >= 0 && ps <= maxParam && csi.Final == r && len(p.params) == old(len(p.params)) && loglen("seq") == old(loglen("seq"))
   loop 1 invariant bytes:  ParamBytes(p)
-  loop 1 invariant lists:  forall a in 0..len(csi.Parameters): (len(csi.Parameters[a]) >= 1 && (forall b in 0..len(csi.Parameters[a]): csi.Parameters[a][b] >= 0))
-  loop 1 invariant cur:    forall b in 0..len(param): param[b] >= 0
+  loop 1 invariant lists:  forall a in 0..len(csi.Parameters): (len(csi.Parameters[a]) >= 1 && (forall b in 0..len(csi.Parameters[a]): (0 <= csi.Parameters[a][b] && csi.Parameters[a][b] <= maxParam)))
+  loop 1 invariant cur:    forall b in 0..len(param): (0 <= param[b] && param[b] <= maxParam)
   loop 1 invariant alloc:  backing(param) < brk() && backing(csi.Parameters) < brk()
                         && (forall a in 0..len(csi.Parameters): backing(csi.Parameters[a]) < brk())
 
